@@ -372,3 +372,25 @@ Lemma adapter_expiry_run :
   map out (snd s) = [[RUpdated; RCreated 1]; [RCleaned 1; RErr EForbidden; RRouted 1 host_a 1 1 11];
                      [RUpdated; RCreated 2]; [RRouted 1 host_a 2 2 22]].
 Proof. vm_compute. reflexivity. Qed.
+
+(* ---- a NEGATIVE expiry instant (the adapter's now + ttl wrapped around for ttl = MaxInt64) ----------------------------------------
+   client 1 creates "a.t.io" and its expiry is set to the wrapped instant: expired from birth — never routed, swept, re-claimed *)
+Definition max_int64 : Z := 9223372036854775807%Z.
+Definition wrapped_threads : list thr :=
+  [ init_thr 1 [OCreate nm_a nm_base 11; OUpdate 0 StActive (adapter_expiry 5 max_int64) 11] [];
+    init_thr 9 [OLookup host_a_port 5; OCleanup 5] [];
+    init_thr 2 [OCreate nm_a nm_base 22] [];
+    init_thr 9 [OLookup host_a 5] [] ].
+Lemma negative_expiry_run :
+  (adapter_expiry 5 max_int64 < 0)%Z /\
+  let s := drun true true true true true none_legacy none_legacy empty_store wrapped_threads
+                (repeat 0 7 ++ repeat 1 12 ++ repeat 2 5 ++ repeat 3 2)%nat in
+  map out (snd s) = [[RUpdated; RCreated 1]; [RCleaned 1; RErr EForbidden]; [RCreated 2]; [RRouted 1 host_a 2 2 22]].
+Proof. split; vm_compute; reflexivity. Qed.
+
+(* IsExpired treating every non-positive instant as "never expires": the same record is not expired, it would route forever *)
+Definition is_expired_nonpositive_never (r : mrec) (now : N) : bool := negb (Z.leb (r_exp r) 0) && Z.ltb (r_exp r) (Z.of_N now).
+Lemma nonpositive_never_refuted :
+  let r := {| r_name := host_a; r_client := 1; r_target := 11; r_status := StActive; r_exp := adapter_expiry 5 max_int64 |} in
+  is_expired_nonpositive_never r 5 = false /\ is_expired r 5 = true /\ is_active r 5 = false.
+Proof. vm_compute. repeat split; reflexivity. Qed.
